@@ -58,6 +58,26 @@ def funcs(ctx, module=None, stubs=None):
     consts = {}
     exprs = {}
 
+    def module_alias(nm):
+        cur = ctx.prog.modules.get(module)
+        mods_ = ([cur] if cur is not None else []) + [m_ for m_ in ctx.prog.modules.values() if m_ is not cur]
+        for m_ in mods_:
+            pkg = m_.name.split('.')[:-1] if not m_.name.endswith('__init__') else m_.name.split('.')
+            for imp in ast.walk(m_.tree):
+                if isinstance(imp, ast.Import):
+                    for al in imp.names:
+                        if al.asname == nm and al.name in ctx.prog.modules:
+                            return al.name
+                elif isinstance(imp, ast.ImportFrom):
+                    base = imp.module or ''
+                    if imp.level:
+                        up = pkg[:len(pkg) - (imp.level - 1)] if imp.level > 1 else pkg
+                        base = '.'.join(up + ([imp.module] if imp.module else []))
+                    for al in imp.names:
+                        if (al.asname or al.name) == nm and (base + '.' + al.name) in ctx.prog.modules:
+                            return base + '.' + al.name
+        return None
+
     def name_of(nm):
         if stubs and nm in stubs:
             return stubs[nm]
@@ -114,6 +134,12 @@ def funcs(ctx, module=None, stubs=None):
                     for al in imp.names:
                         if (al.asname or al.name) == nm and orders.pure_module(al.name) is not None:
                             return orders.pure_module(al.name)
+        # a module of the repository bound to a name (from ..util import helpers as _helpers; import tracklib.util.helpers as _hp)
+        mq_ = module_alias(nm)
+        if mq_ is not None:
+            if ('module', mq_) not in exprs:
+                exprs[('module', mq_)] = RepoModule(ctx, mq_, fn, stubs)
+            return exprs[('module', mq_)]
         # a repository class referred to by name (static methods, class constants, construction)
         quals = [q for q, ci in ctx.prog.classes.items() if ci.name == nm]
         if module is not None and (module + '.' + nm) in quals:
@@ -228,6 +254,51 @@ def total_ordering_methods(defined):
                     out[name] = _SYNTH[key]
             return out
     return {}
+
+
+class RepoModule(orders.PyStub):
+    """a module of the repository held in a variable: its functions, constants and classes, resolved as in that module"""
+
+    def __init__(self, ctx, qual, fn, stubs=None):
+        object.__setattr__(self, '_ctx', ctx)
+        object.__setattr__(self, '_qualname', qual)
+        object.__setattr__(self, '_fn', fn)
+        object.__setattr__(self, '_stubs', stubs)
+
+    def __getattr__(self, k):
+        if k.startswith('__') or k in ('repo_methods', 'repo_funcs', 'isa', 'clsname', 'owners', '_qual'):
+            raise AttributeError(k)
+        ctx, qual, fn = self._ctx, self._qualname, self._fn
+        if self._stubs and k in self._stubs:
+            return self._stubs[k]
+        fi = ctx.prog.maybe_func(qual + '.' + k)
+        if fi is not None and fi.cls is None:
+            return orders.make_func(fi.node, fn)
+        if (qual + '.' + k) in ctx.prog.classes:
+            cache = fn.setdefault('__module_classes__', {})
+            if (qual + '.' + k) not in cache:
+                cache[qual + '.' + k] = ClassRef(ctx, qual + '.' + k, fn)
+            return cache[qual + '.' + k]
+        m = ctx.prog.modules.get(qual)
+        if m is not None and k in m.consts:
+            if sum(1 for m2 in ctx.prog.modules.values() if k in m2.consts) == 1 and (qual, k) not in fn.get('__module_consts__', {}):
+                try:
+                    return fn['__name__'](k)          # (the one object of that name: the module's functions see the same one)
+                except orders.Unsupported:
+                    pass
+            cache = fn.setdefault('__module_consts__', {})
+            if (qual, k) not in cache:
+                cache[(qual, k)] = orders.ev(m.consts[k], {}, fn)
+            return cache[(qual, k)]
+        if (qual + '.' + k) in ctx.prog.modules:
+            return RepoModule(ctx, qual + '.' + k, fn, self._stubs)
+        try:
+            return fn['__name__'](k)            # a name the module itself imported
+        except orders.Unsupported:
+            raise AttributeError("module %r has no attribute %r" % (qual, k))
+
+    def __setattr__(self, k, v):
+        self._fn.setdefault('__module_consts__', {})[(self._qualname, k)] = v
 
 
 def methods_of(ctx, clsqual):
